@@ -30,7 +30,9 @@ impl Paths {
         let filename = "kern_".to_string()
             + &location
                 .iter()
-                .map(|(tag, pos)| format!("{tag}_{:.2}", pos.to_f64()))
+                // the shortest text that reads back as exactly this coordinate: rounding
+                // here would send masters that sit close together to the same file
+                .map(|(tag, pos)| format!("{tag}_{}", pos.to_f64()))
                 .collect::<Vec<_>>()
                 .join("_")
             + ".yml";
